@@ -25,6 +25,10 @@ def run(ctx):
     # ... and every component follows: after chains of reloads the hooks caller announces the directory the agent serves
     import c19
     cov["hook_reload_scenarios"] = c19.reload_chain_leg(ctx, "C18")
+    # reload outcomes of two agents whose directories are refreshed name by name (a directory in the middle of an
+    # rsync run fails the check: the reload must be refused and the old configuration kept)
+    import syncfam
+    syncfam.histories(ctx, 150 if ctx.tier == "thorough" else 15, props={"C18"})
     for e in res["edges"][:2]:
         ctx.sample(e)
     cov["rule"] = ("every Config case (<= 2 deviations from a good document) rendered as YAML through NewDirFromConfig; every accepted "
